@@ -33,6 +33,11 @@ func raceSetup() {
 		return
 	}
 	prefix := os.TempDir() + "/c18-race-" + strconv.Itoa(os.Getpid())
+	// no place for the log: keep the race runtime's defaults (a race then fails the whole run with exit code 66)
+	if err := os.WriteFile(prefix+".probe", nil, 0o600); err != nil {
+		return
+	}
+	os.Remove(prefix + ".probe")
 	os.Setenv("C18_RACE_LOG", prefix)
 	os.Setenv("GORACE", "log_path="+prefix+" exitcode=0 halt_on_error=0")
 	_ = syscall.Exec(exe, os.Args, os.Environ())
